@@ -33,7 +33,7 @@ BOUNDS = {
 ASSUMPTIONS = ['verbatim bodies do not contain the complete end delimiter (property text); the text of the plain-TeX form \\endverbatim is also outside the generated bodies',
                '\\verb delimiters: every printable ASCII character except letters, blank, * and { (plasTeX pairs { with })',
                'math source is compared token for token after re-lexing with the real tokenizer, space tokens ignored']
-OUTSIDE = ['arrays/cases inside formulas', 'math rendered to images']
+OUTSIDE = ['\\verb with the superscript character as delimiter and an empty body (\\verb^^: the look-ahead after the control word decodes ^^X first)', 'amsmath environments (cases, align, ...) inside formulas', 'math rendered to images']
 BUDGET_S = {'quick': 900, 'thorough': 3300}
 
 END = '\\end{verbatim}'
@@ -114,6 +114,8 @@ def h_verb(e, nbody, star, indoc=False):
     d = e.char('delim', 33, 126)
     e.assume(e.none_of(d, '* {'))          # any character except a letter, a blank and * (property: all \\verb delimiters); { pairs with } in plasTeX
     e.assume(api.not_(api.or_(e.between(d, 65, 90), e.between(d, 97, 122))))
+    if nbody == 0:
+        e.assume(e.none_of(d, '^'))          # \verb^^... : the lexer's look-ahead decodes ^^X before \verb can switch the category codes (stated in OUTSIDE)
     body = []
     for i in range(nbody):
         c = e.char('v%d' % i, 32, 126)
@@ -269,6 +271,8 @@ def jobs(tier, seed):
     J.append(dict(harness='h_verbatim', params=dict(pre='\\endverbatim* x', nsym_before=0, nsym_after=1, star=True), label='verbatim* command-form marker', no_twin=True))
     for star in (False, True):
         J.append(dict(harness='h_verb', params=dict(nbody=2 if q else 3, star=star), label='verb star=%s' % star, no_twin=star))
+        for nb in (0, 1):
+            J.append(dict(harness='h_verb', params=dict(nbody=nb, star=star), label='verb star=%s body of %d characters' % (star, nb), no_twin=True))
         J.append(dict(harness='h_verb', params=dict(nbody=2 if q else 3, star=star, indoc=True), label='verb star=%s in a document' % star, no_twin=True))
     for L in (2, 3):
         J.append(dict(harness='h_verbatim', params=dict(pre='', nsym_before=L, nsym_after=0, indoc=True), label='verbatim free L=%d in a document' % L, no_twin=True))
